@@ -223,6 +223,23 @@ impl<'a> PW<'a> {
         self.t.emit("q_rsim", json!({"pool": pool, "kind": kind, "ask": {"d": self.s.dsym(&ask.denom), "a": u(ask.amount)}, "offer_denom": self.s.dsym(offer_denom),
             "ok": ok, "offer": limbs(offer), "fwd_plus1": f1, "fwd": f0}));
     }
+    /// Pools{} page by page against the full listing
+    pub fn pages(&mut self, limit: u32) {
+        let all: Vec<String> = self.s.q_pools().iter().map(|p| p.pool_info.pool_identifier.clone()).collect();
+        let mut paged: Vec<String> = vec![];
+        let mut sizes: Vec<usize> = vec![];
+        let mut start_after: Option<String> = None;
+        loop {
+            let r: Result<pm::PoolsResponse, String> = self.s.query(&self.s.pool, &pm::QueryMsg::Pools { pool_identifier: None, start_after: start_after.clone(), limit: Some(limit) });
+            let Ok(r) = r else { break };
+            if r.pools.is_empty() { break; }
+            sizes.push(r.pools.len());
+            start_after = Some(r.pools.last().unwrap().pool_info.pool_identifier.clone());
+            paged.extend(r.pools.iter().map(|p| p.pool_info.pool_identifier.clone()));
+            if paged.len() > 10_000 { break; }
+        }
+        self.t.emit("q_pages", json!({"what": "pools", "limit": limit, "all": all, "paged": paged, "page_sizes": sizes}));
+    }
     pub fn update_config(&mut self, sender: &Addr, toggle: Option<pm::FeatureToggle>, fee: Option<Coin>, funds: &[Coin], what: &str) -> bool {
         let m = pm::ExecuteMsg::UpdateConfig { fee_collector_addr: None, farm_manager_addr: None, pool_creation_fee: fee, feature_toggle: toggle.clone() };
         let r = self.s.exec_pm_guarded(sender, &m, funds);
@@ -328,6 +345,8 @@ fn sc_create_pool_classes(t: &mut Tracer, cfg: SysCfg, name: &str) {
     extra1.push(coin(1, "uusd"));
     w.create_pool(&b, &["uusdc", "uusdt"], &[6, 6], f0.clone(), CP, Some("zerofeeextra2"), &sorted(extra1));
     w.create_pool(&b, &["uusdc", "uusdt"], &[6, 6], f0.clone(), CP, Some("zerofee"), &ok3);
+    w.pages(4);
+    w.pages(100);
 }
 
 pub struct Setup {
@@ -413,6 +432,9 @@ fn sc_swaps_and_routes(t: &mut Tracer) {
         w.rsim("o.cp0", &coin(ask.min(1_500_000), "uusd"), "uom");
         w.rsim("o.ss1", &coin(ask.min(500_000_000_000), "uusdc"), "uusd");
     }
+    w.pages(1);
+    w.pages(2);
+    w.pages(3);
     w.donate(&tr, coin(12345, "uusdt"));
     w.donate(&tr, coin(1, "uweth"));
     w.swap(&tr, "o.cp1", &[coin(777_777, "uusdc")], "uusdt", None, half, None);
@@ -848,6 +870,22 @@ pub fn run_stable(rng: &mut StdRng, thorough: bool, t: &mut Tracer) {
     sc_stable_magnitude(t, rng, 3, 4, 1000, &[6, 8, 12, 18], 50_000, &[1000, 1000, 1000, 1000], fees(0, 100, 0, &[]), 12);
     sc_stable_magnitude(t, rng, 4, 2, 1, &[18, 18], 5_000_000, &[1000, 1000], zero.clone(), 12);
     sc_stable_magnitude(t, rng, 5, 2, 1_000_000, &[12, 6], 1_000_000_000, &[1000, 3], fees(10, 10, 10, &[]), 12);
+    // normalised reserves around u128::MAX / n .. u128::MAX (6-decimals reserves of 10^26 units next to 18-decimals ones)
+    for (k, (r6, r18)) in [(100_000_000_000_000_000_000u128, 1_000_000_000_000_000_000u128), (200_000_000_000_000_000_000, 1_000_000_000_000_000_000),
+                           (300_000_000_000_000_000_000, 100_000_000_000_000_000_000), (50_000_000_000_000_000_000, 50_000_000_000_000_000_000)].iter().enumerate() {
+        sc_stable_magnitude(t, rng, 6 + k, 2, 85, &[6, 18], 1, &[1000, 1000], zero.clone(), 0);
+        // the helper deposits base*skew; here the raw amounts are given directly
+        let mut w = PW::new(SysCfg::default(), t, &format!("stable_limit_{k}"));
+        let o = w.user(0);
+        let ok = w.creation_funds();
+        if w.create_pool(&o, &["uusd", "uusdc"], &[6, 18], zero.clone(), SS(85), Some("s"), &ok) {
+            let lp = w.user(1);
+            let f = sorted(vec![coin(*r6 * 1_000_000, "uusd"), coin(*r18 * 1_000_000_000_000_000_000, "uusdc")]);
+            w.provide(&lp, "o.s", &f, None, None, None, None, None);
+            w.swap(&lp, "o.s", &[coin(1_000_000_000, "uusd")], "uusdc", None, Some(Decimal::percent(50)), None);
+            w.provide(&lp, "o.s", &sorted(vec![coin(1_000_000, "uusd"), coin(1_000_000_000_000_000_000, "uusdc")]), None, None, None, None, None);
+        }
+    }
     let n = if thorough { 120 } else { 14 };
     for i in 0..n {
         let nn = rng.gen_range(2..=4);
